@@ -57,6 +57,20 @@ theorem rinv_reusable (s : CS) (h : RInv s) (hr : ∀ k, s.cnt .reader (k + 1) =
   simp only [Shared.mk.injEq]
   omega
 
+/-- counting level: the critical sections of a light-switch are exclusive — at most one thread is between `acq RM` and
+`rel RM` (reader points 3, 4, 5 and 9, 10, 11: about to execute `inc rc` / `dec rc`, the `ifeq rc …` test, or the `rel RM`),
+and then `RM` is held; the same for `wc` / `WM` (writer points 1, 2, 3 and 7, 8, 9).  These are the only instructions that
+read or write the counter, hence `self.__counter += 1` (load, add, store) and the test that follows are free of data races
+and may be modelled as atomic instructions. -/
+theorem rinv_counter_exclusive (s : CS) (h : RInv s) :
+    (s.cnt .reader 3 + s.cnt .reader 4 + s.cnt .reader 5 + s.cnt .reader 9 + s.cnt .reader 10 + s.cnt .reader 11 ≤ 1 ∧
+      (1 ≤ s.cnt .reader 3 + s.cnt .reader 4 + s.cnt .reader 5 + s.cnt .reader 9 + s.cnt .reader 10 + s.cnt .reader 11 →
+        s.sh.RM = 1)) ∧
+    (s.cnt .writer 1 + s.cnt .writer 2 + s.cnt .writer 3 + s.cnt .writer 7 + s.cnt .writer 8 + s.cnt .writer 9 ≤ 1 ∧
+      (1 ≤ s.cnt .writer 1 + s.cnt .writer 2 + s.cnt .writer 3 + s.cnt .writer 7 + s.cnt .writer 8 + s.cnt .writer 9 →
+        s.sh.WM = 1)) := by
+  simp only [RInv] at h; omega
+
 /-! ### thread level -/
 
 theorem writers_exclusive_thr {rs : List (List Role)} {c : Cfg} (h : Reach GP rs c) (i j : Nat) (ti tj : Thread)
